@@ -118,12 +118,17 @@ def main():
     for sc, what in [(dict(mode='C', has_o=False, kinds='CC', unreadable=1), 'unreadable input'),
                      (dict(mode='S', has_o=False, kinds='C', out_is_dir='in0.s'), 'unwritable output'),
                      (dict(mode='C', has_o=False, kinds='CC', out_is_dir='in1.o'), 'unwritable object output'),
-                     (dict(mode='L', has_o=True, kinds='C', main_at=0, out_is_dir='out.bin'), 'unwritable output (link)')]:
+                     (dict(mode='L', has_o=True, kinds='C', main_at=0, out_is_dir='out.bin'), 'unwritable output (link)'),
+                     (dict(mode='C', has_o=False, kinds='CC', in_is_dir=1), 'input that cannot be read (a directory)'),
+                     (dict(mode='S', has_o=False, kinds='C', in_is_dir=0), 'input that cannot be read (a directory), -S'),
+                     (dict(mode='S', has_o=True, kinds='C', out_path='/dev/full'), 'output that cannot be written (/dev/full), -S'),
+                     (dict(mode='E', has_o=True, kinds='C', out_path='/dev/full'), 'output that cannot be written (/dev/full), -E')]:
         rc, out, err = sh(['unshare', '-m', 'python3', os.path.join(VERIF, 'tools/c14_scenario.py'), src, json.dumps(sc)], timeout=120); evals += 1
         try: obs = json.loads(out.strip().split('\n')[-1])
         except Exception: run.corr_broken.append('scenario runner failed: ' + (out + err)[-200:]); continue
-        if obs['exit'] == 0 or obs['leftover'] or obs['exit'] < 0 or obs['exit'] > 1:
-            run.violation(dict(kind='driver-discipline', fault=what, observed=obs, scenario=sc), dict(area='driver', fault=what))
+        bad_out = [c for c in obs['changed'] if sc.get('in_is_dir', -1) >= 0 and c.startswith('in%d.' % sc['in_is_dir']) and not c.endswith('.c')]
+        if obs['exit'] == 0 or obs['leftover'] or obs['exit'] < 0 or obs['exit'] > 1 or bad_out:
+            run.violation(dict(kind='driver-discipline', fault=what, observed=obs, scenario=sc, output_created_for_failed_unit=bad_out), dict(area='driver', fault=what))
 
     # ---- concurrent invocations in one directory
     conc = '''import os, sys, subprocess, json
